@@ -258,6 +258,42 @@ def drive_sweep(cs, scn, rec, seed, modes, max_steps=2500, after_goal=120):
                 for st in held[:3]:
                     rec.genstep(e, st, ("int", rng.randrange(n)) if fa else ("list", encode_param(cs, rng.randrange(n) + 1)),
                                 0.3)
+        # single-entry episodes: ONE public host (the last rows first) is compromised, the network is scanned from it
+        # and every host it discovers is attacked through it alone
+        try:
+            pub = [(hi, h) for hi, h in enumerate(hosts) if env.network.subnet_public(h[0])][::-1]
+        except Exception:      # noqa
+            pub = []
+        # first the two last public hosts together, then each alone, then the first public host alone
+        entries = ([pub[:2]] + [[x] for x in pub[:2]] + [pub[:1], pub[-1:]]) if len(pub) > 1 else [pub[:1]]
+        for group in entries:
+            rec.reset(e)
+            used = 0
+            g = group[-1][1] if group else None
+            for (gi, g_) in group:
+                for j in list(range(ph)) * 2:           # everything on the entry host, in index order, twice
+                    k = gi * ph + j + 1
+                    a = pyref.flat_action(cs, k)
+                    sp = ("int", k - 1) if fa else ("list", encode_param(cs, k))
+                    rec.step(e, sp, pyref.draw_for(a["prob"], True, j % 2))
+                    used += 1
+            ents = {tuple(x[1]) for x in group}
+            # hosts whose own firewall names the entry host are attacked first (input selection only)
+            hd = cs.get("hdeny", {})
+            order2 = sorted(enumerate(hosts), key=lambda x: (0 if ents & {tuple(k_) for k_ in hd.get(x[1], {})} else 1,
+                                                             x[0]))
+            for hi, h in order2:
+                if used > max_steps // 4:
+                    break
+                if tuple(h) in ents or not env.current_state.host_discovered(h) or env.network.subnet_public(h[0]):
+                    continue
+                for j in range(4, ph):               # exploits and escalations through the single entry
+                    k = hi * ph + j + 1
+                    a = pyref.flat_action(cs, k)
+                    sp = ("int", k - 1) if fa else ("list", encode_param(cs, k))
+                    rec.step(e, sp, pyref.draw_for(a["prob"], True, 0))
+                    used += 1
+            out["steps"] += used
     return out
 
 
